@@ -243,6 +243,8 @@ func checkUnit(u *sUnit, ds []*DemuxerData) int {
 		vassert("C02.pes.payload", vBytesEq(d.PES.Data, u.pes.payload))
 		vassert("C02.pes.header", d.PES.Header.StreamID == u.pes.streamID && d.PES.Header.OptionalHeader != nil &&
 			d.PES.Header.OptionalHeader.PTS != nil && d.PES.Header.OptionalHeader.PTS.Base == int64(u.pes.opt.pts))
+		vassert("C12.unit.header", d.PES.Header.StreamID == u.pes.streamID && d.PES.Header.OptionalHeader != nil &&
+			d.PES.Header.OptionalHeader.PTS != nil && d.PES.Header.OptionalHeader.PTS.Base == int64(u.pes.opt.pts) && vBytesEq(d.PES.Data, u.pes.payload))
 		if len(u.afPriv) > 0 {
 			vassert("C02.pes.afpriv", d.FirstPacket.AdaptationField != nil && vBytesEq(d.FirstPacket.AdaptationField.TransportPrivateData, u.afPriv))
 		}
@@ -276,6 +278,10 @@ func drainAndCheck(dmx *Demuxer, s *sStream, r *vReader) {
 		for j := 0; j < n; j++ {
 			d, err := dmx.NextData()
 			vassert("C02.next.err", err == nil)
+			if u.kind == 0 {
+				// (C12) a PES unit is recognised and decoded however its bytes are spread over TS packets
+				vassert("C12.unit.delivered", err == nil && d != nil && d.PES != nil)
+			}
 			ds = append(ds, d)
 			if j == 0 && r != nil && (u.kind == 1 || u.kind == 2) && trigger[k] >= 0 {
 				// returned by the call that reads its final packet, without consuming any further byte
